@@ -20,7 +20,7 @@ import (
 	"verif/harness/ref"
 )
 
-const confData = "/repo/tests/conformance/data"
+func confData() string { return filepath.Join(chk.Repo(), "tests/conformance/data") }
 
 type confRecord struct {
 	Type   string           `json:"type"`
@@ -136,7 +136,7 @@ func lfsPointer(path string) (string, int, bool, []byte) {
 }
 
 func buildConfTool(dir, name string) (string, error) {
-	src := filepath.Join("/repo/go/conformance", name, "main.go")
+	src := filepath.Join(chk.Repo(), "go/conformance", name, "main.go")
 	d := filepath.Join(dir, name)
 	if err := os.MkdirAll(d, 0o755); err != nil {
 		return "", err
@@ -146,7 +146,7 @@ func buildConfTool(dir, name string) (string, error) {
 		return "", err
 	}
 	_ = os.WriteFile(filepath.Join(d, "main.go"), b, 0o644)
-	gomod := "module conftool\n\ngo 1.21\n\nrequire github.com/foxglove/mcap/go/mcap v0.0.0\n\nreplace github.com/foxglove/mcap/go/mcap => /repo/go/mcap\n"
+	gomod := "module conftool\n\ngo 1.21\n\nrequire github.com/foxglove/mcap/go/mcap v0.0.0\n\nreplace github.com/foxglove/mcap/go/mcap => " + chk.Repo() + "/go/mcap\n"
 	_ = os.WriteFile(filepath.Join(d, "go.mod"), []byte(gomod), 0o644)
 	sum, _ := os.ReadFile("/verif/harness/go.sum")
 	_ = os.WriteFile(filepath.Join(d, "go.sum"), sum, 0o644)
@@ -293,7 +293,7 @@ func C17(r *chk.Run) {
 	r.Rule("the finite conformance matrix is enumerated completely: every .json expectation under tests/conformance/data; the binary input of each vector is regenerated by the reference encoder and accepted only if its sha256 and size equal the Git-LFS pointer; read tool (streamed) on all vectors, read tool (indexed) on the variants GoIndexedReaderTestRunner admits, write tool on the non-padded vectors (byte-exact against the LFS oid, and record stream decoded by the reference decoder against the expectation); distinct = distinct vectors")
 	r.Assume("the two tools are rebuilt from /repo's working tree (main.go copied into a scratch module that replaces go/mcap by /repo/go/mcap)")
 	r.Assume("the .mcap halves are Git-LFS pointers; the sha256/size in each pointer pins the regenerated binary")
-	files, _ := filepath.Glob(filepath.Join(confData, "*", "*.json"))
+	files, _ := filepath.Glob(filepath.Join(confData(), "*", "*.json"))
 	sort.Strings(files)
 	only := ""
 	if r.Replay != nil {
